@@ -127,6 +127,8 @@ pub enum Atom {
     RevAttrs(usize),
     SingleQuote(usize),
     FlipEmpty(usize),
+    LocalPrefix(usize),
+    RedeclareNs(usize),
 }
 
 fn style_of(atoms: &[Atom], kind: Kind) -> Style {
@@ -150,6 +152,8 @@ fn style_of(atoms: &[Atom], kind: Kind) -> Style {
             Atom::RevAttrs(s) => st.reverse_attrs.push(*s),
             Atom::SingleQuote(s) => st.single_quote.push(*s),
             Atom::FlipEmpty(s) => st.flip_empty.push(*s),
+            Atom::LocalPrefix(s) => st.local_prefix.push(*s),
+            Atom::RedeclareNs(s) => st.redeclare_ns.push(*s),
         }
     }
     if is_message(kind) {
@@ -195,6 +199,12 @@ fn atoms_for(tree: &N) -> Vec<Atom> {
         if n.kids.is_empty() && n.text.as_deref().map_or(true, str::is_empty) {
             v.push(Atom::FlipEmpty(*site));
         }
+        if !n.ns.is_empty() {
+            v.push(Atom::LocalPrefix(*site));
+            if *site != 0 {
+                v.push(Atom::RedeclareNs(*site));
+            }
+        }
     }
     v
 }
@@ -217,6 +227,8 @@ fn atom_label(a: &Atom, tree: &N) -> String {
         Atom::RevAttrs(s) => format!("{}:attribute-order", name(*s)),
         Atom::SingleQuote(s) => format!("{}:single-quoted-attributes", name(*s)),
         Atom::FlipEmpty(s) => format!("{}:empty->start-end", name(*s)),
+        Atom::LocalPrefix(s) => format!("{}:prefix-declared-on-the-element-itself", name(*s)),
+        Atom::RedeclareNs(s) => format!("{}:namespace-redeclared", name(*s)),
     }
 }
 
@@ -260,6 +272,70 @@ fn accepted_form(base: &Base, s: &mut Sess) -> Option<(Vec<Atom>, Outcome, Strin
     None
 }
 
+/// Canonical rendering of the XML information content of a serialised message, computed with the
+/// harness' own strict parser: namespace-resolved element and attribute names, attributes sorted,
+/// comments / the XML declaration / namespace declarations dropped, white space between elements
+/// dropped, leaf text trimmed if `trim_leaves`. Two serialisations the harness claims to be
+/// equivalent must have the same rendering: this guards the rewrites themselves.
+fn infoset(text: &str) -> Result<String, String> {
+    use crate::xmlstrict::{Elem, Node};
+    let body = text.strip_suffix(MARKER).unwrap_or(text);
+    let doc = crate::xmlstrict::parse(body.as_bytes()).map_err(|e| format!("not well-formed at {}: {}", e.pos, e.msg))?;
+    fn go(e: &Elem, scope: &[(String, String)], out: &mut String) -> Result<(), String> {
+        let mut sc: Vec<(String, String)> = scope.to_vec();
+        for (k, v) in &e.attrs {
+            if k == "xmlns" {
+                sc.push((String::new(), v.clone()));
+            } else if let Some(p) = k.strip_prefix("xmlns:") {
+                sc.push((p.to_string(), v.clone()));
+            }
+        }
+        let resolve = |q: &str, is_attr: bool| -> Result<String, String> {
+            match q.split_once(':') {
+                Some((p, l)) => sc.iter().rev().find(|(k, _)| k == p).map(|(_, ns)| format!("{{{ns}}}{l}")).ok_or_else(|| format!("unbound prefix {p}")),
+                None if is_attr => Ok(q.to_string()),
+                None => Ok(format!("{{{}}}{q}", sc.iter().rev().find(|(k, _)| k.is_empty()).map_or("", |(_, ns)| ns.as_str()))),
+            }
+        };
+        out.push('<');
+        out.push_str(&resolve(&e.name, false)?);
+        let mut attrs: Vec<(String, String)> = Vec::new();
+        for (k, v) in &e.attrs {
+            if k == "xmlns" || k.starts_with("xmlns:") {
+                continue;
+            }
+            attrs.push((resolve(k, true)?, v.clone()));
+        }
+        attrs.sort();
+        for (k, v) in attrs {
+            out.push_str(&format!(" {k}={v:?}"));
+        }
+        out.push('>');
+        let has_elems = e.elems().next().is_some();
+        for n in &e.children {
+            match n {
+                Node::Elem(c) => go(c, &sc, out)?,
+                Node::Text(t) => {
+                    if has_elems {
+                        if !t.trim().is_empty() {
+                            out.push_str(&format!("[mixed:{t:?}]"));
+                        }
+                    } else {
+                        out.push_str(&format!("[{:?}]", t.trim()));
+                    }
+                }
+                _ => {}
+            }
+        }
+        out.push_str("</>");
+        Ok(())
+    }
+    let mut out = String::new();
+    go(&doc.root, &[], &mut out)?;
+    // an element without content and one with empty text are the same
+    Ok(out.replace("[\"\"]", ""))
+}
+
 pub fn run_c13(cfg: &Cfg) -> i32 {
     let mut rep = Report::new(
         "C13",
@@ -277,6 +353,18 @@ pub fn run_c13(cfg: &Cfg) -> i32 {
         let (out, text) = eval_style(base, &toggle(base_atoms, atoms), s);
         rep.case(Some(text.as_bytes()));
         rep.count(&format!("variants:{}", base.kind.name()));
+        // the harness' own claim first: the variant has the information content of the base
+        if !miri {
+            let base_text = dom::serialise(&base.tree, &style_of(base_atoms, base.kind));
+            match (infoset(&base_text), infoset(&text)) {
+                (Ok(a), Ok(b)) if a == b => rep.count("variants_whose_infoset_equals_the_base_per_the_strict_parser"),
+                (a, b) => {
+                    rep.violation("harness:rewrite-not-equivalent", &format!("the harness' rewrite does not preserve the information content: {:?} vs {:?}", a.map(|x| clip(&x, 300)), b.map(|x| clip(&x, 300))),
+                        json!({"base": base.label, "atoms": format!("{atoms:?}"), "variant": clip(&text, 800)}));
+                    return;
+                }
+            }
+        }
         if out == *base_out {
             return;
         }
